@@ -4,7 +4,7 @@ import ast
 from ..core import sym
 from ..core.expand import u, call_name, get_arg, bind_args, Expander, is_marker, phi_alternatives
 from ..core.loader import Inconclusive, const_value, parents
-from .common import (explicit_guards_of, returns, all_nodes, callee, strip_shape, calls_in, guards_of, stmt_of, kw, find_assignments, in_loop,
+from .common import (alternatives, guard_dnf, literal_dnf, guarded_values, explicit_guards_of, returns, all_nodes, callee, strip_shape, calls_in, guards_of, stmt_of, kw, find_assignments, in_loop,
                      result_fields, compare_nf, loops_around)
 
 EXPLANATION = (
@@ -293,16 +293,18 @@ def rule_formulas(ck):
             probs.append('get_quantiles(%s) - expected (simulated distribution %s, observed statistic %s)' % (', '.join(args), dist, obs))
         if tg != '(delta_1, delta_2)':
             probs.append('result unpacked as %s, expected (delta_1, delta_2)' % tg)
-        for fl in result_fields(P, f):
+        exk = Expander(P, f, keep={dist, obs, 'delta_1', 'delta_2', 'test_distribution'})
+        for fl in result_fields(P, f, exk):
+            # temporaries between the statistic and the result object are looked through; the named values stay symbolic
             q = fl.get('quantile')
-            if q is not None and '__none__' not in fl and u(q[1]) not in ('(delta_1, delta_2)', '(None, None)'):
-                probs.append('result quantile is %s' % u(q[1]))
+            if q is not None and '__none__' not in fl and not all(u(a_) in ('(delta_1, delta_2)', '(None, None)') for a_ in alternatives(q[0])):
+                probs.append('result quantile is %s' % u(q[0])[:60])
             osv = fl.get('observed_statistic')
-            if osv is not None and u(osv[1]) not in (obs, 'None'):
-                probs.append('observed_statistic is %s, expected %s' % (u(osv[1]), obs))
+            if osv is not None and not all(u(a_) in (obs, 'None') or u(a_).startswith('numpy.nan') for a_ in alternatives(osv[0])):
+                probs.append('observed_statistic is %s, expected %s' % (u(osv[0])[:60], obs))
             td = fl.get('test_distribution')
-            if td is not None and u(td[1]) not in (dist, 'test_distribution'):
-                probs.append('test_distribution is %s' % u(td[1]))
+            if td is not None and not all(u(a_) in (dist, 'test_distribution', '[]') for a_ in alternatives(td[0])):
+                probs.append('test_distribution is %s' % u(td[0])[:60])
         (o.fail('; '.join(probs)) if probs else o.ok())
     # magnitude-type statistics: cumulative_square_diff(log10(h + 1), log10(scaled_union + 1))
     for name in ('magnitude_test', 'resampled_magnitude_test'):
@@ -426,6 +428,61 @@ RESULT_CLASS = {'number_test': 'CatalogNumberTestResult', 'spatial_test': 'Catal
                 'MLL_magnitude_test': 'CatalogMagnitudeTestResult', 'calibration_test': 'CalibrationTestResult'}
 
 
+def _status_literal(t, pol, var):
+    """True if the literal states `var.status != 'not-valid'`, False if it states `== 'not-valid'`, None otherwise"""
+    if isinstance(t, ast.Compare) and len(t.ops) == 1 and const_value(t.comparators[0]) == 'not-valid' and u(t.left) == '%s.status' % var:
+        if isinstance(t.ops[0], ast.Eq):
+            return not pol
+        if isinstance(t.ops[0], ast.NotEq):
+            return pol
+    return None
+
+
+def _skips_not_valid(P, f):
+    """the collected quantiles are `r.quantile[idx]` for exactly the results r with r.status != 'not-valid': an append guarded by
+    that test (nested if, guard clause, either arm) or a comprehension filtered by it (directly or through a predicate helper)"""
+    N_ok = 0
+    # loop form
+    for x in all_nodes(f):
+        if isinstance(x, ast.Call) and isinstance(x.func, ast.Attribute) and x.func.attr == 'append' and x.args \
+                and isinstance(x.args[0], ast.Subscript) and isinstance(x.args[0].value, ast.Attribute) and x.args[0].value.attr == 'quantile':
+            var = u(x.args[0].value.value)
+            lp = in_loop(x, f.node)
+            if lp is None:
+                return False
+            dnf = guard_dnf(x, lp)
+            if len(dnf) != 1:
+                return False
+            lits = [_status_literal(t, pol, var) for t, pol in dnf[0]]
+            if lits.count(True) >= 1 and False not in lits and all(l_ is not None for l_ in lits):
+                N_ok += 1
+            else:
+                return False
+    # comprehension form
+    for x in all_nodes(f):
+        if isinstance(x, (ast.ListComp, ast.GeneratorExp)) and isinstance(x.elt, ast.Subscript) and isinstance(x.elt.value, ast.Attribute) \
+                and x.elt.value.attr == 'quantile' and len(x.generators) == 1:
+            var = u(x.elt.value.value)
+            good = False
+            for cond in x.generators[0].ifs:
+                for conj in literal_dnf(cond, True):
+                    for t, pol in conj:
+                        if _status_literal(t, pol, var) is True:
+                            good = True
+                if isinstance(cond, ast.Call):
+                    # a predicate helper: every path returning True must have seen status != 'not-valid'
+                    vals = guarded_values(P, f, cond, stmt_of(x))
+                    trues = [g_ for v_, g_ in vals if const_value(v_) is True]
+                    falses = [g_ for v_, g_ in vals if const_value(v_) is False]
+                    if trues and len(trues) + len(falses) == len(vals) and \
+                            all(("%s.status == 'not-valid'" % var, False) in g_ or ("%s.status != 'not-valid'" % var, True) in g_ for g_ in trues):
+                        good = True
+            if not good:
+                return False
+            N_ok += 1
+    return N_ok == 1
+
+
 def rule_classes(ck):
     P = ck.prog
     ck.clause('D5')
@@ -438,12 +495,7 @@ def rule_classes(ck):
             (o.ok() if fl['__class__'][0] == 'csep.models.' + cls else o.fail('%s builds a %s, expected %s' % (name, fl['__class__'][0].split('.')[-1], cls)))
     f = P.func(CE + 'calibration_test')
     o = ck.ob('C10-D5.skip', f, "not-valid results are skipped", f.node)
-    ok = False
-    for n in all_nodes(f):
-        if isinstance(n, ast.If) and u(n.test) == "result.status == 'not-valid'":
-            apps_else = [x for s in n.orelse for x in ast.walk(s) if isinstance(x, ast.Call) and u(x.func) == 'quantiles.append']
-            apps_body = [x for s in n.body for x in ast.walk(s) if isinstance(x, ast.Call) and u(x.func) == 'quantiles.append']
-            ok = len(apps_else) == 1 and not apps_body and u(apps_else[0].args[0]) == 'result.quantile[idx]'
+    ok = _skips_not_valid(P, f)
     (o.ok() if ok else o.fail("calibration_test does not skip results whose status is 'not-valid'"))
     # expected rates are computed on demand in the tests that need them
     for name in ('spatial_test', 'magnitude_test', 'pseudolikelihood_test', 'resampled_magnitude_test', 'MLL_magnitude_test'):
